@@ -634,6 +634,67 @@ def rule_i(R, ctx):
     R.floor("C19.i", "YOutput conversions that set a tag", n, 16)
 
 
+def rule_j(R, ctx):
+    Yf = ctx.yffi
+    R.rule("C19.j", "R-GUARD signed C fields that become unsigned Rust values (belief rule, 3 of 3 sites): every cast of a signed integer "
+                    "read from a C struct to an unsigned type is decided by exactly `x >= 0` of the value that is cast (taken, or "
+                    "`x < 0` refused; the negated value on the other side) — unguarded the value wraps, and a stricter test "
+                    "(`x > 0`) silently drops the legal value 0 (capture_timeout_millis = 0 means `every transaction is its own "
+                    "undo step`; client_or_len = 0 is a valid client id)")
+    n = 0
+    for p, fn in sorted(Yf.fns.items()):
+        if not fn.mir:
+            continue
+        v = None
+        k = 0
+        for i, j, st in fn.stmts():
+            rv = st["rv"]
+            if "cast" not in rv:
+                continue
+            src = rv["cast"]
+            sl = src.get("c", src.get("m")) if isinstance(src, dict) else None
+            try:
+                sty = str(fn.local_ty(sl)) if isinstance(sl, int) else ""
+            except Exception:
+                sty = ""
+            if sty not in ("i8", "i16", "i32", "i64", "isize") or str(rv.get("ty")) not in ("u8", "u16", "u32", "u64", "usize"):
+                continue
+            v = v or FnView(fn)
+            val = simp_deep(v.terms.operand(src, 10))
+            if not any(x[0] == "call" and (x[1].endswith("::as_ref") or x[1].endswith("::as_mut") or x[1].endswith("::read")) for x in walk(val)) and \
+                    not any(x[0] == "deref" for x in walk(val)):
+                continue   # not a value read through a C pointer
+            n += 1
+            site = "cast#%d" % k
+            k += 1
+            # the value cast: x itself or -x
+            neg = val[0] == "un" and val[1] == "Neg"
+            key = mir_vkey(fn, src)
+            if neg:
+                d = mir_def(fn, src)
+                key = mir_vkey(fn, d[1]["a"]) if d and d[0] == "stmt" and d[1].get("un") == "Neg" else key
+            ok = False
+            seen = []
+            for l in v.guards(i):
+                sw = fn.blocks[l.bb]["t"].get("switch")
+                sd = mir_def(fn, sw) if sw else None
+                if not (sd and sd[0] == "stmt" and sd[1].get("bin") in ("Ge", "Gt", "Le", "Lt")) or not isinstance(l.polarity, bool):
+                    continue
+                a, b = mir_vkey(fn, sd[1]["a"]), mir_vkey(fn, sd[1]["b"])
+                op = sd[1]["bin"]
+                zero_b = isinstance(b, tuple) and b[0] == "k" and str(b[1]).split("_")[0] == "0"
+                if a == key and zero_b:
+                    seen.append("%s 0 is %s" % (op, l.polarity))
+                    nonneg = (op == "Ge" and l.polarity is True) or (op == "Lt" and l.polarity is False)
+                    negside = (op == "Ge" and l.polarity is False) or (op == "Lt" and l.polarity is True)
+                    if (nonneg and not neg) or (negside and neg):
+                        ok = True
+            R.ob("C19.j", fn, site, ok, "cast of %s decided by exactly `x >= 0`" % sshow(val, 4) if ok else
+                 "cast of %s to unsigned is decided by %s — not by exactly `x >= 0`: a negative value wraps or the value 0 is dropped" % (sshow(val, 4), seen or "no sign test"),
+                 "%s:%s" % (fn.file, st["line"]))
+    R.floor("C19.j", "signed-to-unsigned casts of C-side values", n, 2)
+
+
 def check(ctx, R):
     holder = {}
     R.run("C19.a", lambda R, c: holder.setdefault("h", rule_a(R, c)), ctx)
@@ -644,6 +705,7 @@ def check(ctx, R):
     R.run("C19.g", rule_g, ctx)
     R.run("C19.h", rule_h, ctx)
     R.run("C19.i", rule_i, ctx)
+    R.run("C19.j", rule_j, ctx)
     if "h" in holder:
         R.run("C19.d", rule_d, ctx, holder["h"])
     return {}
